@@ -15,7 +15,7 @@ pub struct Ctx {
     pub seed: u64,
     pub shard: u64,
     pub nshards: u64,
-    pub out: std::io::BufWriter<std::io::Stdout>,
+    pub out: std::io::BufWriter<Box<dyn Write>>,
     pub count: u64,
 }
 impl Ctx {
@@ -57,7 +57,14 @@ fn main() {
         seed: args[3].parse().unwrap_or(1),
         shard: args.get(4).and_then(|s| s.parse().ok()).unwrap_or(0),
         nshards: args.get(5).and_then(|s| s.parse().ok()).unwrap_or(1),
-        out: std::io::BufWriter::with_capacity(1 << 20, std::io::stdout()),
+        // the library under test prints to stdout (`println!("ERROR ..")`): cases go to $SVH_OUT when set
+        out: std::io::BufWriter::with_capacity(
+            1 << 20,
+            match std::env::var("SVH_OUT") {
+                Ok(p) => Box::new(std::fs::File::create(p).expect("create SVH_OUT")) as Box<dyn Write>,
+                Err(_) => Box::new(std::io::stdout()) as Box<dyn Write>,
+            },
+        ),
         count: 0,
     };
     if ctx.tier == "replay" {
